@@ -55,15 +55,30 @@ theorem fork_keeps_invariant (touches touches' : Nat → Nat → Bool) (g : G) (
   obtain ⟨p, lo⟩ := g
   exact inv_fork hi hns hnc hag
 
-/-- **a crash in front of any write of the fork handling** (the deletions of the records above
-the fork point one by one, then the rollback batch): the store satisfies the invariant for the
-blocks at or below the fork point — everything the old chain and the new one share, so whichever
-of them the restarted client follows, nothing of it has been forgotten -/
-theorem fork_crash_keeps_shared_part (touches : Nat → Nat → Bool) (g : G) (f j : Nat)
+/-- **a crash in front of the write of the fork handling** (ONE batch since the repair: the
+deletion of the records above the fork point and the rollback): the store is untouched, the
+invariant of the chain the client was on holds in full — whichever chain the restarted client
+follows, nothing has been forgotten -/
+theorem fork_crash_keeps_invariant (touches : Nat → Nat → Bool) (g : G) (f j : Nat)
     (hi : Inv touches g) (hns : NoSpan g.p f) (hnc : NoClaimInRetained g.p g.lo f) :
-    Inv (below f touches) ⟨applyWs g.p ((forkWrites g.p f).take j), g.lo⟩ := by
+    Inv touches ⟨applyWs g.p ((forkWrites g.p f).take j), g.lo⟩ := by
   obtain ⟨p, lo⟩ := g
-  exact fork_prefix_below hi hns hnc j
+  exact fork_prefix_inv hi hns hnc j
+
+/-- the fork handling is atomic: before or after, nothing in between -/
+theorem fork_is_atomic (p : P) (f j : Nat) :
+    applyWs p ((forkWrites p f).take j) = p ∨
+      applyWs p ((forkWrites p f).take j) = applyWs p (forkWrites p f) :=
+  fork_atomic p f j
+
+/-- the fork handling BEFORE the repair (the records above the fork point deleted one by one,
+then the rollback batch): a crash in between kept the invariant only for the blocks at or below
+the fork point, all the two chains share -/
+theorem old_fork_crash_keeps_shared_part_only (touches : Nat → Nat → Bool) (g : G) (f j : Nat)
+    (hi : Inv touches g) (hns : NoSpan g.p f) (hnc : NoClaimInRetained g.p g.lo f) :
+    Inv (below f touches) ⟨applyWs g.p ((oldForkWrites g.p f).take j), g.lo⟩ := by
+  obtain ⟨p, lo⟩ := g
+  exact old_fork_prefix_below hi hns hnc j
 
 /-- **crash, restart, the same fork again**: the stored tip is written after the fork handling,
 so the restarted client detects the same fork; the second fork handling ends in exactly the store
@@ -94,20 +109,19 @@ theorem converges_after_forks (evs : List Ev) (touches : Nat → Nat → Bool) (
     (s, b) ∈ (runEv touches g evs).2.p.indexed :=
   indexed_of_done (inv_runEv evs touches g hi ho) hdone hs ht hlo (Nat.le_trans hb htip)
 
-/-- **the limit of the two crash theorems, as a witness**: the deletions of the records above the
-fork point are writes of their own.  Script 1 waits for block 12 (record from 11); the chain forks
-at 10; the process dies after the deletion of the record, in front of the rollback batch.  If the
-restarted client then follows the OLD chain after all (the reorganisation was reorganised away
-meanwhile: no fork is detected, no rollback happens), block 12 is neither indexed nor pending and
-lies below the min filtered number: the invariant of the old chain is lost — only its part at or
-below the fork point survives (`fork_crash_keeps_shared_part`).  Not reproduced on the code: the
-crash enumeration of `./check C08` continues half of such runs on the old branch, none of the
-generated histories lost activity (DESIGN.md 10.12). -/
-theorem fork_crash_then_old_chain_is_not_covered :
+/-- **the defect this model found** (repaired: the fork handling is one batch now).  With the
+deletions of the records above the fork point as writes of their own: script 1 waits for block 12
+(record from 11); the chain forks at 10; the process dies after the deletion of the record, in
+front of the rollback batch.  If the restarted client then follows the OLD chain after all (the
+reorganisation was reorganised away meanwhile: no fork is detected, no rollback happens), block 12
+is neither indexed nor pending and lies below the min filtered number: its activity is lost.
+Reproduced on the code by `./check C08` (growth-then-fork histories, crash inside the fork
+handling, the old branch wins: `C08|history-missing`), see DESIGN.md 10.17. -/
+theorem old_fork_crash_then_old_chain_loses :
     let touches : Nat → Nat → Bool := fun s b => s == 1 && b == 12
     let g : G := ⟨⟨[(1, 0)], 14, [⟨11, 4, [12]⟩], []⟩, fun _ => 0⟩
     Inv touches g ∧
-    let p' := applyWs g.p ((forkWrites g.p 10).take 1)
+    let p' := applyWs g.p ((oldForkWrites g.p 10).take 1)
     p'.records = [] ∧ p'.minF = 14 ∧ ¬ Inv touches ⟨p', g.lo⟩ := by
   intro touches g
   refine ⟨?_, ?_⟩
@@ -160,9 +174,10 @@ example :
     let p : P := ⟨[(1, 0)], 14, [⟨1, 10, [5]⟩, ⟨11, 4, [12]⟩], []⟩
     NoSpan p 10 ∧ NoClaimInRetained p (fun _ => 0) 10 ∧ Agree 10 touches touches' ∧
     (applyWs p (forkWrites p 10)).records = [⟨1, 10, [5]⟩] ∧
-    (applyWs p (forkWrites p 10)).minF = 1 ∧ (forkWrites p 10).length = 2 := by
+    (applyWs p (forkWrites p 10)).minF = 1 ∧ (forkWrites p 10).length = 1 ∧
+    (oldForkWrites p 10).length = 2 := by
   intro touches touches' p
-  refine ⟨?_, ?_, ?_, by decide, by decide, by decide⟩
+  refine ⟨?_, ?_, ?_, by decide, by decide, by decide, by decide⟩
   · intro r hr hle
     simp [p] at hr
     rcases hr with rfl | rfl <;> simp at hle ⊢
